@@ -596,8 +596,7 @@ func TestC09(t *testing.T) {
 		}
 	}
 
-	rep.CoqFiles = append(rep.CoqFiles, qf.finish(t, dir))
-	rep.CaseFiles = append(rep.CaseFiles, writeJSONL(t, dir, "C09_queue_cases.jsonl", jl))
+	qf.finishSharded(t, dir, rep, jl, 400)
 
 	bf := newCoqFile("C09_backoff_cases", []string{"Queue", "QueueCheck"}, "list (outcome * Z)", "bo_mismatches")
 	jl = nil
@@ -634,7 +633,6 @@ func TestC09(t *testing.T) {
 		}
 	}
 
-	rep.CoqFiles = append(rep.CoqFiles, bf.finish(t, dir))
-	rep.CaseFiles = append(rep.CaseFiles, writeJSONL(t, dir, "C09_backoff_cases.jsonl", jl))
+	bf.finishSharded(t, dir, rep, jl, 400)
 	rep.write(t, dir)
 }
